@@ -7,7 +7,7 @@ import itertools
 from mc import pool, seams, canon, factory_engine as F
 from . import c12
 
-CHARS = ["a", " ", "é", "#", ":", '"', "F"]
+CHARS = ["a", " ", "é", "#", ":", '"', "F", "à", "Ѕ"]  # à = c3 a0, Ѕ = d0 85: last UTF-8 byte looks like NBSP / NEL
 MARKERS = [("# Filter: ", "# Description: "), ("# rule:", "# info:"), ("#N ", "#D ")]
 
 
@@ -18,7 +18,7 @@ def texts(maxlen, markers):
             v = "".join(tup)
             if v != v.strip():
                 continue
-            if any(m.strip() in v or m in v for pair in markers for m in pair):
+            if any(m.strip() in v or m in v for m in markers):
                 continue
             out.append(v)
     return out + ["Unnamed rule 1", "my filter", "Filter", "Description", "x: y", "été #1"]
